@@ -58,6 +58,7 @@ type FuncContract struct {
 	Modifies    []string
 	HasModifies bool
 	GhostSets   []GhostSet // ghost assignments at program points (`set G = E at entry | after call KEY N`)
+	PointAsserts []PointAssert // `assert LABEL: E before call KEY N`
 	Findings    []FindingSplit
 	Trusted     bool // contract assumed at call sites, body not verified
 	File        string
@@ -75,6 +76,13 @@ type GhostSet struct {
 	Nth     int
 	File    string
 	Line    int
+}
+
+// PointAssert is an assertion anchored right before the N-th call (in block order) of a named callee.
+type PointAssert struct {
+	Clause Clause
+	Callee string
+	Nth    int
 }
 
 type SpecFunc struct {
@@ -117,7 +125,7 @@ func newContractSet() *ContractSet {
 	return &ContractSet{Funcs: map[string]*FuncContract{}, SpecFuncs: map[string]*SpecFunc{}, Lemmas: map[string]*Lemma{}, GhostVars: map[string]string{}}
 }
 
-var keywordRe = regexp.MustCompile(`^(func|extern|requires|ensures|loop|ghost|set|nopanic|nooverflow|inline|pure|modifies|spec|axiom|lemma|finding|trusted|end)\b`)
+var keywordRe = regexp.MustCompile(`^(func|extern|requires|ensures|loop|ghost|set|assert|nopanic|nooverflow|inline|pure|modifies|spec|axiom|lemma|finding|trusted|end)\b`)
 
 // loadContractFile parses one contract file. pkgName qualifies unqualified function names.
 func (cs *ContractSet) loadContractFile(path, pkgName string) error {
@@ -281,6 +289,23 @@ func (cs *ContractSet) loadContractFile(path, pkgName string) error {
 			}
 			sf.File = path
 			cs.SpecFuncs[sf.Name] = sf
+		case "assert":
+			if cur == nil {
+				return fail("assert outside func")
+			}
+			am := regexp.MustCompile(`^(.*?)\s+before call (\S+) (\d+)$`).FindStringSubmatch(rest)
+			if am == nil {
+				return fail("assert [LABEL:] EXPR before call KEY N")
+			}
+			acl, aerr := parseClause(am[1], path, it.line)
+			if aerr != nil {
+				return fail("%v", aerr)
+			}
+			if acl.Label == "" {
+				acl.Label = strconv.Itoa(len(cur.PointAsserts) + 1)
+			}
+			an, _ := strconv.Atoi(am[3])
+			cur.PointAsserts = append(cur.PointAsserts, PointAssert{Clause: acl, Callee: am[2], Nth: an})
 		case "set":
 			if cur == nil {
 				return fail("set outside func")
